@@ -97,7 +97,7 @@ func (r *capReader) Read() (*idr.Node, error) {
 	}
 	return n, err
 }
-func (r *capReader) Release(n *idr.Node)                { r.inner.Release(n) }
+func (r *capReader) Release(n *idr.Node)               { r.inner.Release(n) }
 func (r *capReader) IsContinuableError(err error) bool { return r.inner.IsContinuableError(err) }
 func (r *capReader) FmtErr(format string, args ...interface{}) error {
 	return r.inner.FmtErr(format, args...)
@@ -402,15 +402,12 @@ func buildWorkload(sum *vh.Summary) *workload {
 
 // one concurrent mix; returns failures (what, detail) and the per-goroutine record-node ID sequences
 func runMix(r *vh.Rng, w0 *workload, tier string) (desc mixDesc, fails [][2]string, seqs [][]int64, c0, c1 int64) {
-	// Fresh Schema objects for the concurrent phase: their FIRST use is concurrent, so state that
-	// is written lazily on first use is exercised (and raced) as well; the alone runs use another
-	// fresh set afterwards.
-	w := buildWorkload(nil)
-	wAlone := buildWorkload(nil)
-	if len(w.schemas) != len(w0.schemas) || len(wAlone.schemas) != len(w0.schemas) {
-		fails = append(fails, [2]string{"workload schemas could not be rebuilt", ""})
-		return
-	}
+	desc = genMix(r, w0)
+	fails, seqs, c0, c1 = execMix(desc, w0)
+	return
+}
+
+func genMix(r *vh.Rng, w *workload) (desc mixDesc) {
 	desc.Procs = []int{1, 2, 16}[r.Pick(3)]
 	desc.Goroutines = r.Between(2, 16)
 	desc.NodePool = r.Chance(0.6)
@@ -432,6 +429,19 @@ func runMix(r *vh.Rng, w0 *workload, tier string) (desc mixDesc, fails [][2]stri
 			in := w.gen[si](r, r.Between(1, 12))
 			desc.Jobs[g] = append(desc.Jobs[g], job{Schema: si, Label: w.schemas[si].Name, Input: in, InHex: hex.EncodeToString(in)})
 		}
+	}
+	return
+}
+
+func execMix(desc mixDesc, w0 *workload) (fails [][2]string, seqs [][]int64, c0, c1 int64) {
+	// Fresh Schema objects for the concurrent phase: their FIRST use is concurrent, so state that
+	// is written lazily on first use is exercised (and raced) as well; the alone runs use another
+	// fresh set afterwards.
+	w := buildWorkload(nil)
+	wAlone := buildWorkload(nil)
+	if len(w.schemas) != len(w0.schemas) || len(wAlone.schemas) != len(w0.schemas) {
+		fails = append(fails, [2]string{"workload schemas could not be rebuilt", ""})
+		return
 	}
 	// configuration of the process-wide state: set before any goroutine starts
 	runtime.GOMAXPROCS(desc.Procs)
@@ -644,6 +654,11 @@ func main() {
 		"concurrent mixes: N in 2..16 goroutines, each driving 1..3 Transforms over shared Schema objects (seven formats, javascript, xpath with regexps/dynamic xpaths/templates), GOMAXPROCS in {1,2,16}, node pool on/off, JS caches default/capacity one/off; non-trivial = at least two goroutines share one Schema object (always); distinct by (config, jobs)")
 	cw := vh.NewCaseWriter(o, "C14", "Model.Js Model.Conc", "ccase", "check_case")
 	w := buildWorkload(sum)
+	if o.Replay != "" {
+		replay(o, w)
+		sum.Write(o)
+		return
+	}
 	total := o.Count(150, 6000)
 	{ // what the workload looks like: the first results of each schema run alone
 		r0 := vh.NewRng(o.Seed + 7777)
@@ -721,4 +736,39 @@ func main() {
 	cw.Flush()
 	sum.CaseFiles = cw.Files
 	sum.Write(o)
+}
+
+// replay re-runs the concurrent mix of a replay file written by bin/check (same jobs, same
+// configuration) twenty times on the current tree and prints what differs from the runs alone.
+func replay(o *vh.Opts, w *workload) {
+	b, err := os.ReadFile(o.Replay)
+	if err != nil {
+		fmt.Println("replay:", err)
+		return
+	}
+	var f struct {
+		Oracle string  `json:"oracle"`
+		Case   mixDesc `json:"case"`
+	}
+	if err := json.Unmarshal(b, &f); err != nil || len(f.Case.Jobs) == 0 {
+		fmt.Println("replay: the file has no concurrent mix (a race report or a process death is reproduced by re-running the check with its seed)")
+		return
+	}
+	fmt.Println("replaying:", f.Oracle)
+	for g := range f.Case.Jobs {
+		for k := range f.Case.Jobs[g] {
+			f.Case.Jobs[g][k].Input, _ = hex.DecodeString(f.Case.Jobs[g][k].InHex)
+		}
+	}
+	bad := 0
+	for i := 0; i < 20; i++ {
+		fails, _, _, _ := execMix(f.Case, w)
+		for _, x := range fails {
+			bad++
+			fmt.Printf("run %d: %s\n    %s\n", i, x[0], x[1])
+		}
+	}
+	reset()
+	fmt.Printf("%d goroutines, GOMAXPROCS %d, node pool %v, js caches %s: %d failure(s) in 20 runs\n",
+		f.Case.Goroutines, f.Case.Procs, f.Case.NodePool, f.Case.JSCache, bad)
 }
